@@ -471,6 +471,9 @@ func skipRecord(data *[]byte) {
 func decodeFlowSample(data *[]byte, expanded bool) (SFlowFlowSample, error) {
 	s := SFlowFlowSample{}
 	var sdf SFlowDataFormat
+	if len(*data) < 4 {
+		return SFlowFlowSample{}, errors.New("flow sample too small")
+	}
 	*data, sdf = (*data)[4:], SFlowDataFormat(binary.BigEndian.Uint32((*data)[:4]))
 	var sdc SFlowDataSource
 
@@ -545,6 +548,9 @@ func decodeFlowSample(data *[]byte, expanded bool) (SFlowFlowSample, error) {
 	*data, s.RecordCount = (*data)[4:], binary.BigEndian.Uint32((*data)[:4])
 
 	for i := uint32(0); i < s.RecordCount; i++ {
+		if len(*data) < 4 {
+			return s, errors.New("flow sample too small for flow record")
+		}
 		rdf := SFlowFlowDataFormat(binary.BigEndian.Uint32((*data)[:4]))
 		enterpriseID, flowRecordType := rdf.decode()
 
